@@ -701,8 +701,9 @@ func (w *world) foreignUnsyncedAncestor(img *simos.Image, key string) string {
 		}
 		// p is missing from the image: who created it?
 		base := p[strings.LastIndexByte(p, '/')+1:]
+		self := w.fs.Lookup(p)
 		for _, c := range w.fs.Log {
-			if c.Child != nil && c.Child.Dir && c.Name == base && !c.Durable {
+			if c.Child != nil && c.Child.Dir && c.Child == self && c.Name == base && !c.Durable {
 				if c.Owner != A.id+1 {
 					// and its own parent is present, i.e. this is the broken link
 					pp := p[:strings.LastIndexByte(p, '/')]
@@ -737,9 +738,10 @@ func (w *world) foreignUnsyncedFile(img *simos.Image, key string) bool {
 		return false
 	}
 	base := p[strings.LastIndexByte(p, '/')+1:]
+	parent := w.fs.Lookup(dir)
 	var last *simos.Change
 	for _, c := range w.fs.Log {
-		if c.Name == base && c.Child != nil && !c.Child.Dir {
+		if c.Dir == parent && c.Name == base && c.Child != nil && !c.Child.Dir {
 			last = c
 		}
 	}
